@@ -24,6 +24,14 @@ type VerifFW struct {
 // VerifNewFailoverWriter creates the writer on directories "pri" and "sec" of fs (they must exist).
 // Every goroutine it starts is spawned from the calling goroutine's context (stopper.runAsync).
 func VerifNewFailoverWriter(fs vfs.FS, wn NumWAL, walSyncFormat bool) (*VerifFW, error) {
+	return VerifNewFailoverWriterCreated(fs, wn, walSyncFormat, nil)
+}
+
+// VerifNewFailoverWriterCreated additionally passes the writer's own test hook: one value is sent
+// on created (give it a buffer) each time a physical log writer has been created and installed.
+func VerifNewFailoverWriterCreated(
+	fs vfs.FS, wn NumWAL, walSyncFormat bool, created chan<- struct{},
+) (*VerifFW, error) {
 	v := &VerifFW{st: newStopper(), qsem: make(chan struct{}, 64)}
 	v.dirs = [numDirIndices]dirAndFileHandle{{Dir: Dir{FS: fs, Dirname: "pri"}}, {Dir: Dir{FS: fs, Dirname: "sec"}}}
 	for i := range v.dirs {
@@ -49,8 +57,9 @@ func VerifNewFailoverWriter(fs vfs.FS, wn NumWAL, walSyncFormat bool) (*VerifFW,
 				v.Closed = append(v.Closed, s.segment.String())
 			}
 		},
-		segmentClosed:       func(_ logicalLogWithSizesEtc) {},
-		writeWALSyncOffsets: func() bool { return walSyncFormat },
+		segmentClosed:        func(_ logicalLogWithSizesEtc) {},
+		writeWALSyncOffsets:  func() bool { return walSyncFormat },
+		writerCreatedForTest: created,
 	}, v.dirs[primaryDirIndex])
 	return v, err
 }
